@@ -206,6 +206,28 @@ class Exec:
                 return False
             s.tick(st[1])
             return True
+        if op == "pump":
+            # ["pump", n]: n steps of the fair schedule (deliver in order, fire timers on time) - lets windows grow
+            s.run_fair(max_steps=st[1])
+            return True
+        if op == "run":
+            # ["run", us]: let `us` microseconds pass; every endpoint timer that falls due meanwhile is fired on time
+            # (the caller keeps its side of the contract), nothing is delivered
+            end = s.now + st[1]
+            if end - self.t0 > ADV_BUDGET_US:
+                return False
+            for _ in range(200):
+                cand = [(s.timer_value(ep), ep) for ep in s.eps if not s.terminated[ep] and s.timer_value(ep) is not None]
+                cand = [c for c in cand if c[0] < end]
+                if not cand:
+                    break
+                n0, (v, ep) = s.dgid, min(cand)
+                s.fire(ep)
+                if s.dgid == n0 and s.timer_value(ep) == v:
+                    break                  # a timer without effect: do not spin
+            if s.now < end:
+                s.tick(end - s.now)
+            return True
         raise simmod.MachineryError("unknown step %r" % (st,))
 
 
